@@ -372,10 +372,10 @@ theorem ainvG_fixAll (s : PState) (h : AInv GT GA s) : AInv GT GA (fixAll s) := 
 theorem ainvG_preDev (reg : Registry) (opts : Opts) (plug : Plug) (hnp : NamesPlain reg) :
     AInv GT GA (preDev reg opts plug) := by
   have hA := augClosed'_G (envOf reg opts plug)
-  have h1 := augmentLoop_ainv' hA reg ((pending0 reg opts plug).foldl (fun n p => n + p.2.length) 0 + 2)
-    ((augOrder reg).map (·.seq)).toArray (pstate0 reg opts plug) (ainvG_pstate0 reg opts plug hnp)
-  have h2 := leftover_ainv' hA reg (afterLoop reg opts plug).1 (fixAll (afterLoop reg opts plug).2)
-    (ainvG_fixAll _ h1)
+  have h1 := afterRounds_state reg opts plug (AInv GT GA)
+    (fun fuel mods s h => augmentLoop_ainv' hA reg fuel mods s h) (fun s h => ainvG_fixAll s h)
+    (ainvG_pstate0 reg opts plug hnp)
+  have h2 := leftover_ainv' hA reg (afterRounds reg opts plug).1 (afterRounds reg opts plug).2 h1
   unfold preDev
   split
   · exact ainvG_fixAll _ h2
